@@ -125,23 +125,70 @@ def find(pid, f, repo, scratch):
                 else:
                     w['observed'] = out[0][:2] if out else None
         return
-    # Verus failures: canned inputs per clause (search only)
-    fam = CANNED.get(f.get('clause') or '', None)
+    # Verus failures: inputs that exercise exactly this clause (search only)
+    fam = list(CANNED.get(f.get('clause') or '', []))
+    gen = GENERATED.get(f.get('clause') or '')
+    if gen:
+        fam += list(gen())
     if not fam:
         return
     binary = build_replayer(repo, scratch)
     if not binary:
         return
-    for case in fam:
-        out = run_requests(binary, [(case['op'], case['input'])])
-        if not out:
-            continue
-        got = out[0]
+    outs = run_requests(binary, [(c['op'],) + tuple(c['input'].split('\t')) for c in fam])
+    f['witness_search'] = dict(inputs_tried=len(fam))
+    for case, got in zip(fam, outs):
         bad = case['bad'](got)
         if bad:
             f['witness'] = dict(public_api_input=case['input'], request=case['op'], observed=[x[:300] for x in got[:3]], expected=case['expect'])
             f['replayed'] = True
             return
+
+
+# ------------------------------------------------------------------------------------------------
+# generated families: all small expressions over a few atoms, with what the property demands of each
+# (used only to look for a concrete failing input once the verifier has reported or could not decide an obligation)
+# ------------------------------------------------------------------------------------------------
+def gen_exprs(atoms):
+    """atoms: list of (text, flags dict) -> (text, merged flags) for: atoms, negated atoms, all binary combinations of two
+    atoms under -a / -o / , / juxtaposition, their negations, and every combination of such a pair with a third atom on
+    either side (about 7k expressions for 6 atoms)"""
+    def merge(a, b):
+        return {k: a.get(k, False) or b.get(k, False) for k in set(a) | set(b)}
+    ops = (' -a ', ' -o ', ' , ', ' ')
+    out = [(t, dict(f)) for t, f in atoms] + [('! ' + t, dict(f)) for t, f in atoms]
+    pairs = [(lt + op + rt, merge(lf, rf)) for (lt, lf) in atoms for (rt, rf) in atoms for op in ops]
+    out += pairs + [('! ( %s )' % t, f) for t, f in pairs]
+    for (pt, pf) in pairs:
+        for (at, af) in atoms:
+            for op in ops:
+                out.append(('( %s )%s%s' % (pt, op, at), merge(pf, af)))
+                out.append(('%s%s( %s )' % (at, op, pt), merge(pf, af)))
+    return out
+
+
+def family_wrap():
+    atoms = [('-true', {}), ('-false', {}), ('-name x', {}), ('-print', {'action': True}), ('-quit', {'action': True}),
+             ('-fprint f', {'action': True})]
+    for text, fl in gen_exprs(atoms):
+        act = fl.get('action', False)
+        yield dict(op='compile', input=text, expect='implicit print iff no action (here: %s)' % ('action present' if act else 'no action'),
+                   bad=(lambda g, act=act: g[0] == 'OK' and (('(print-relative-path)' in g[1]) == act)))
+
+
+def family_refusal():
+    atoms = [('-true', {}), ('-name x', {}), ('-print', {}), ('-regex r', {'bad': True}), ('-ls', {'bad': True}), ('nope', {'bad': True}),
+             ('-printf "%p"', {}), ('-printf "%Z"', {'bad': True})]
+    for text, fl in gen_exprs(atoms):
+        bad = fl.get('bad', False)
+        yield dict(op='compile', input=text, expect='refused' if bad else 'compiles',
+                   bad=(lambda g, bad=bad: (g[0] == 'OK' and bad) or (g[0] == 'CERR' and not bad)))
+
+
+GENERATED = {
+    'C09.top.wrap_decision': family_wrap, 'C19.action.iff': family_wrap, 'C09.emit.structure': family_wrap,
+    'C12.refusal.iff': family_refusal, 'C12.top.iff': family_refusal,
+}
 
 
 def _has(sub):
